@@ -21,3 +21,8 @@ pub mod endpoint;
 pub mod path;
 pub mod recovery;
 pub mod stream;
+
+// verif hook H1 (add-only): connection-id model-checking harness, see /verif/DESIGN.md
+#[cfg(all(test, aws_s2n_quic_verif))]
+#[path = "/verif/engines/txmc/cid.rs"]
+mod verif_txmc_cid;
